@@ -195,7 +195,7 @@ Definition hs_accepts (b : list byte) (ty hl len mc : Z) : bool :=
 (* the calls made: memcmp once the LLC octets matched, then the (macro-expanded) ntohs on octets 6,7 when memcmp said equal *)
 Definition hs_trace (rho : env) (b : list byte) (a ty hl len mc : Z) : list event :=
   if hs_llc b ty hl len
-  then ("memcmp", [a + 3; wrap u64 (rho "&XEROX_OUI"); 3])
+  then ("memcmp", [a + 3; wrap u64 (rho "str:\x00\x00\x00"); 3])
        :: (if mc =? 0 then [("ntohs", [znth b 6 + 256 * znth b 7])] else [])
   else [].
 
